@@ -377,6 +377,19 @@ func leafTermsFrozen(r *Run, rule string) {
 							continue // a refusal, not an answer
 						}
 					}
+					// `return f(x)` written out as `if err := f(x); err != nil { return err }; return nil`: nil exactly
+					// when the pinned value is nil
+					if at == "nil" && eidx == idx {
+						same := false
+						for _, g := range a.G {
+							if g.Pos && canonAtom(g.Key()) == canonAtom("isnil("+m[2]+")") {
+								same = true
+							}
+						}
+						if same {
+							continue
+						}
+					}
 					other = append(other, oneLine(at)+" under {"+strings.Join(atomStrings(a.G), " ; ")+"}")
 				}
 				compared++
